@@ -33,7 +33,8 @@ MANIFEST = {
     "recently opened open run (LIFO; includes the single-run-key case) and states a truthy exit_status (or omits "
     "the keyword while the engine status is 'success'); runs open at an abort/halt are later closed as 'abort' "
     "(by the plan or by the engine); the engine closes no run whose span is still open. abort/halt/call boundaries "
-    "unrestricted. Theorems: C42_one_span_each_ended_once_partial, C42_own_status_partial, C42_open_runs_partial.",
+    "unrestricted. Theorems: C42_one_span_each_ended_once_partial, C42_own_status_partial, C42_open_runs_partial, "
+    "C42_good_partial, C42_complete_history_partial (+ glue good_of_inv); invariant proof in Lemmas/C42.lean.",
     "note": "Trusted: Lean kernel; the extractor in harness/props/C42.py (strict AST shape recognition, raises when "
     "the shape is not recognised); harness/fake_tracer.py (records start/set_attribute/end); 'aborted' (span) and "
     "'abort' (RunStop) are read as the same outcome; the n-th open_run message is identified with the n-th run "
